@@ -376,6 +376,7 @@ func C16_Strings() {
 			nd.Assert(ok && finite(f), tag+"/non-finite-accepted")
 		} else {
 			nd.Assert(isExec(err), tag+"/error-class")
+			nd.Assert(isVerbose(err), tag+"/rejection-not-suppressible")
 		}
 	}
 }
